@@ -140,7 +140,7 @@ def file_level(ctx, exe, files, root, results):
     for f in files:
         rel = os.path.relpath(f, root)
         size = os.path.getsize(f)
-        fam = not rel.startswith('TOUGHplus')
+        fam = True
         jobs.append(dict(rel=rel, src=f, skips='all' if th else ('some' if size < 400000 else 'none'), fchk=fam, exe=exe, sim=sims.get(rel), size=size))
     # value-perturbed copies (substitution lists found by the first pass), smaller files first
     var = [r for r in results if r.get('variant') and r.get('subs')]
@@ -267,7 +267,7 @@ def run(ctx):
     preload()
     pool = multiprocessing.Pool(vf.NPROC, maxtasksperchild=1)   # forked before any thread exists; one process per job: no job sees the state another left
     async_res = pool.map_async(W.process, jobs, chunksize=1)
-    ok = ctx.coq_build(props=('Props.v', 'Props2.v', 'Props3.v'), timeout=1500)
+    ok = ctx.coq_build(props=('Props.v', 'Props2.v', 'Props3.v', 'Props4.v'), timeout=1500)
     exe = vf.build_driver(ctx) if os.path.exists(os.path.join(ctx.build, 'Drv.ml')) else None
     if exe is None and ok:
         ctx.proof_failures.append({'kind': 'proof', 'name': 'extraction', 'detail': 'Drv.ml was not produced'})
